@@ -82,6 +82,10 @@ def run(ctx):
                       "threshold-kept", "the refreshed public key package's threshold is not the old one: %s" % fmt(ms),
                       f.loc)
             ins = [o for o in vs[2] if o[1] == "insert"] if vs[0] == "mut" else []
+            ctx.check(vs[0] == "mut" and is_call(vs[1], name="new") and not vs[1][2] and all(o[1] == "insert" for o in vs[2]), "PROV", f.key,
+                      "refreshed-package-lists-only-refreshed-identifiers",
+                      "the refreshed public key package's verifying shares must be built from an empty map by the "
+                      "per-identifier inserts only (removed participants must not be carried over): %s" % fmt(vs[1])[:120], f.loc)
             good = len(ins) == 1
             if good:
                 key, val = ins[0][2][0], unwrap_newtypes(ins[0][2][1])
@@ -208,6 +212,10 @@ def run(ctx):
                       f.loc)
             vs = get_field(pkp, "verifying_shares")
             ins = [o for o in vs[2] if o[1] == "insert"] if vs[0] == "mut" else []
+            ctx.check(vs[0] == "mut" and is_call(vs[1], name="new") and not vs[1][2] and all(o[1] == "insert" for o in vs[2]), "PROV", f.key,
+                      "refreshed-package-lists-only-refreshed-identifiers",
+                      "the refreshed public key package's verifying shares must be built from an empty map by the "
+                      "per-identifier inserts only", f.loc)
             good = len(ins) == 1
             if good:
                 key, val = ins[0][2][0], unwrap_newtypes(ins[0][2][1])
